@@ -294,7 +294,7 @@ func verifC09_double_pong() {
 	}()
 	select {
 	case <-done:
-	case <-time.After(20 * time.Second):
+	case <-time.After(8 * time.Second):
 		vAssert(false, "C09.closenow.returns")
 	}
 	vReach("C09.double-pong.closed")
